@@ -110,9 +110,8 @@ func c02Step(h http.Handler, m *model, keys []string, i int) {
 	case 3: // list buckets
 		r := Do(h, Req{Method: "GET", Path: "/"})
 		vsym.Assert(r.Code() == 200, "C02/list-buckets/status")
-		got := r.BucketNames()
-		sort.Strings(got)
-		vsym.Assert(sameStrings(got, sortedNames(m.buckets)), "C02/list-buckets/names")
+		// exactly the model's buckets, listed by name
+		vsym.Assert(sameStrings(r.BucketNames(), sortedNames(m.buckets)), "C02/list-buckets/names")
 	case 4: // put
 		b, k := pickB(), pickK()
 		body := vsym.Bytes("body", 1)
@@ -207,6 +206,9 @@ func c02Step(h http.Handler, m *model, keys []string, i int) {
 
 // c02Observe reads everything back and compares with the model.
 func c02Observe(h http.Handler, m *model, keys []string) {
+	// the bucket list: exactly the model's buckets, by name
+	rl := Do(h, Req{Method: "GET", Path: "/"})
+	vsym.Assert(rl.Code() == 200 && sameStrings(rl.BucketNames(), sortedNames(m.buckets)), "C02/final/bucket-list")
 	for _, b := range c02Buckets {
 		if _, ok := m.buckets[b]; !ok {
 			continue // probing an absent bucket would create it under auto-bucket
